@@ -26,14 +26,16 @@ func searchLegs(r *hxlib.Run) {
 		runOne(r, hxconn.GenLatePeer(r.R), false)
 		r.Count("search:late-peer")
 	}
-	// the same while the peer is STILL WRITING when the graceful Close begins. On the unchanged tree this loses packets
-	// now and then (Close shuts the read side down first; a frame of the peer that arrives after both directions are
-	// shut down makes the Linux kernel reset the connection, and the part of the flushed backlog it had not yet
-	// transmitted is destroyed): recorded as an observation with the key delivery:lost-at-close:peer-still-writing,
-	// never as a failing input of a seeded change
+	// the same while the peer is STILL WRITING when the graceful Close begins (a Close that shuts the receive side down
+	// first loses the tail of the flushed backlog: a frame of the peer that arrives after the FIN makes the Linux
+	// kernel reset the connection): key delivery:lost-at-close:peer-still-writing
 	for k := 0; k < 80 && !r.Failed(); k++ {
 		runOne(r, hxconn.GenPeerStillWriting(r.R), false)
 		r.Count("search:peer-still-writing")
+	}
+	for k := 0; k < 40 && !r.Failed(); k++ {
+		runOne(r, hxconn.GenPeerWritesThroughClose(r.R), false)
+		r.Count("search:peer-writes-through-close")
 	}
 	old := qnet.TConnReadTimeout
 	qnet.TConnReadTimeout = 1
